@@ -403,13 +403,21 @@ func exec(line string) string {
 			switch pkt[0] {
 			case 81, 82:
 				c = s.pendingOn(-1, "g")
-			case 91, 92, 99, 100, 52, 97, 5, 6:
+			case 91, 92: // answer to an OpenChannel
+				if len(pkt) >= 5 {
+					c = s.pendingOn(int(binary.BigEndian.Uint32(pkt[1:])), "o")
+				}
+			case 99, 100: // answer to a channel SendRequest
+				if len(pkt) >= 5 {
+					c = s.pendingOn(int(binary.BigEndian.Uint32(pkt[1:])), "q")
+				}
+			case 97: // the channel is torn down: whoever waits on it returns
 				if len(pkt) >= 5 {
 					c = s.pendingOn(int(binary.BigEndian.Uint32(pkt[1:])), "oq")
 				}
 			}
 			if c != nil {
-				waitFor(400*time.Millisecond, func() bool { s.mu.Lock(); defer s.mu.Unlock(); return c.done })
+				waitFor(3*time.Second, func() bool { s.mu.Lock(); defer s.mu.Unlock(); return c.done })
 				// an OpenChannel that returned a channel: the application now holds it (handled in the call itself)
 			}
 			segs = append(segs, s.flush())
@@ -651,7 +659,7 @@ func (gs *gsim) fatal(p []byte, confirmOK, failureOK bool) bool {
 	case 92:
 		return !failureOK
 	case 5, 6:
-		return len(p) != 5+int(id)
+		return true // a non-channel message addressed to a channel ends the connection (repo 18df6c0)
 	}
 	return true
 }
@@ -920,8 +928,9 @@ func genOne(g *hx.Gen) {
 	g.Emit("mux steps=%s", strings.Join(toks, ","))
 }
 
-// genFlood: the witness family of mux_can_block_on_unsolicited — an accepted channel nobody is waiting on
-// receives 17+ messages that take the `default: ch.msg <- msg` arm; then the peer hangs up.
+// genFlood: regression family of the fixed finding mux-blocked-by-unsolicited-channel-messages — an accepted channel
+// nobody is waiting on receives 17+ decoded non-channel messages (they used to take a blocking `ch.msg <- msg`;
+// now the first one must end the connection with everything closed); then the peer hangs up.
 func genFlood(g *hx.Gen) {
 	r := g.R
 	var toks []string
